@@ -264,8 +264,15 @@ def mutate(x, seen=None):
         x.MUT_attr = 'MUT'
 
 
+UNKNOWN_FORMS = (MOD + ':Nope',                              # the module is there, the class is not
+                 'no.such.module.anywhere:Thing',            # no such module
+                 'harness.props.c19_brokenmod:Thing',        # the module exists but raises ImportError when imported
+                 MOD + ':Savable.Nope')                      # nested name that does not resolve
+
+
 def tamper(st, kind):
-    unknown = MOD + ':Nope'
+    import zlib
+    unknown = UNKNOWN_FORMS[zlib.crc32(repr(sorted(k for k in st if isinstance(k, str))).encode() + kind.encode()) % len(UNKNOWN_FORMS)]
     meta = st.setdefault('!!meta', {})
     if kind == 'cls':
         meta['class_name'] = unknown
@@ -877,6 +884,35 @@ def hook_stream(_=None):
     return fails
 
 
+HOOK_WANT = {'HookParent': dict(x=1), 'HookChild': dict(x=1, y=[2]), 'HookGrandChild': dict(x=1, y=[2], z=3)}
+
+
+def hook_save(name):
+    """save one object of the hook family (in a worker process of its own) and hand the saved state back"""
+    common.ensure_repo_on_path()
+    from harness.props import c19_classes as cc
+    return name, getattr(cc, name)().save()
+
+
+def hook_load(arg):
+    """impl-only: recreate, in an interpreter in which NO object of the family was ever saved (what loading a checkpoint after a
+    restart is), a state saved elsewhere: the members declared in the persist() hook are restored all the same"""
+    common.ensure_repo_on_path()
+    import plumpy
+    name, state = arg
+    try:
+        back = plumpy.Savable.load(state, None)
+        got = {k: getattr(back, k, '<missing>') for k in HOOK_WANT[name]}
+    except BaseException as e:  # noqa
+        got = 'raised ' + type(e).__name__
+    if got != HOOK_WANT[name]:
+        return [dict(signature='hook-declared-member-not-restored', clause='saving and recreating restores every member declared with '
+                     'auto_persist (here: declared in the persist() hook, state loaded in an interpreter that never saved the class)',
+                     detail=dict(cls=name, restored=repr(got), expected=repr(HOOK_WANT[name])),
+                     case=dict(hook_stream=True, fresh_interpreter=True, cls=name))]
+    return []
+
+
 def run(ctx):
     cases, n_sys = gen_cases(ctx)
     with mp.Pool(ctx.workers) as pool:
@@ -891,6 +927,10 @@ def run(ctx):
     orders = list(itertools.permutations(('HookParent', 'HookChild', 'HookGrandChild')))
     with mp.Pool(len(orders), maxtasksperchild=1) as pool:          # one fresh interpreter state per order
         for fs in pool.map(hook_stream, orders, chunksize=1):
+            failures.extend(fs)
+    with mp.Pool(3, maxtasksperchild=1) as pool:                    # saved in one interpreter, loaded in another
+        saved = pool.map(hook_save, ('HookParent', 'HookChild', 'HookGrandChild'), chunksize=1)
+        for fs in pool.map(hook_load, saved, chunksize=1):
             failures.extend(fs)
     distinct = set()
     hist = dict(member_kinds={}, depth={}, loader_config={}, tamper={}, outcome={}, decl_kinds={'d': 0, 'c': 0}, classes={})
@@ -928,6 +968,11 @@ def run(ctx):
 
 
 def replay(ctx, failure):
+    if failure['case'].get('fresh_interpreter'):
+        with mp.Pool(1, maxtasksperchild=1) as pool:
+            saved = pool.apply(hook_save, (failure['case']['cls'],))
+            fs = pool.apply(hook_load, (saved,))
+        return dict(failures=[dict(signature=f['signature'], detail=f['detail']) for f in fs])
     if failure['case'].get('hook_stream'):
         with mp.Pool(1, maxtasksperchild=1) as pool:
             fs = pool.apply(hook_stream, (tuple(failure['case']['order']),))
